@@ -78,7 +78,7 @@ PROP_RULES = {
     "C14": ["CHAR-SIB", "CHAR-PROV", "REGEX-ANCHOR", "K", "HOOKS-TOKEN", "SEQ-PROV", "MODE-PURE"],
     "C15": ["K", "SUB-INPUT", "MODE-PAIR", "BUILDER-PROV"],
     "C16": ["K", "SUB-INPUT", "D:ALT-LINEAR", "D:PFAIL", "SPAN-PROV", "READER-SIB"],
-    "C17": ["K", "D:ALT-LINEAR", "D:ALT-POS", "ERR-SPAN"],
+    "C17": ["K", "D:ALT-LINEAR", "D:ALT-POS", "ERR-SPAN", "MODE-PAIR"],
     "C18": ["HOOKS-WRITERS", "HOOKS-TOKEN", "HOOKS-SAVE-REWIND", "SUB-INPUT", "D:POISON", "D:KEEP", "K"],
     "C19": ["UNSAFE-INV", "MAYBEUNINIT", "CONTAINER-PROV"],
     "C20": ["D:PFAIL", "RECURSE", "INPUT-MISC", "NONCONSUMPTION-FWD", "MODE-PAIR", "K"],
